@@ -65,7 +65,10 @@ ROUTES = ('ctor', 'set_rules', 'file', 'ctor+own', 'set_rules+own',
           'file-twin',
           # the policy file does not exist when the enforcer is first used;
           # it is written afterwards
-          'file-appears')
+          'file-appears',
+          # policy.d held a second file that defined the otherwise unknown
+          # name; it was loaded, then removed (nothing else touched)
+          'dir-removed')
 
 
 def bound(tier):
@@ -182,6 +185,17 @@ def build(P, parse_rule, ruleset, cfg, route, w):
             for _ in (0, 1):
                 enf.enforce(q, {}, {'roles': []})
         w.write('policy.yaml', world.dumps_policy(ruleset))
+        return enf
+    if route == 'dir-removed':
+        w.mkdir('policy.d')
+        w.write('policy.d/rules.yaml', world.dumps_policy(ruleset))
+        w.write('policy.d/extra.yaml', world.dumps_policy(
+            {'zz': '@', 'nope': '@'}))
+        conf = world.new_conf(w.root, **overrides)
+        enf = P.Enforcer(conf, **kw)
+        for q in QUERIES:
+            enf.enforce(q, {}, {'roles': []})
+        w.delete('policy.d/extra.yaml')
         return enf
     if route == 'file+late':
         in_file = {k: v for k, v in ruleset.items() if k != 'x'}
